@@ -390,6 +390,7 @@ func checkC19(w *World, r *Report) {
 	r.Explanation = "Decides two clauses of C19 that relate sibling implementations, for every input: (R19.1) every implementation that gives strings element semantics — whatever is registered as the filter or function length, count, first, last, slice, reverse, the built-in length arm and the for-loop renderer — measures, indexes, slices and numbers strings in runes: no byte length used as a count, no byte indexing or computed byte slicing, no Value.Len() where the value may be a string, no range key used as ordinal; this is the necessary condition for 'length equals the number of elements that first, last, slice and a for loop observe'; (R19.2) in every variadic filter the default assigned to an omitted optional argument is not a value to which the same function gives a different meaning when supplied (the defect 'omitted length means to the end' vs 'negative length counts from the end'). NOT decided: every other equation of the property (idempotence, involution, permutation, join/split, default, merge, keys, the index rules themselves, decimal arithmetic) — they quantify over values."
 	r.Explanation += " Rules added in later rounds: (R19.5) values are measured by kind, never through interfaces with methods."
 	r.Explanation += " Round 9: (R19.6) no interface value is compared with a boxed numeric constant."
+	r.Explanation += " Round 10: (R19.1) a []byte value is not re-read as text in one sibling only."
 	r.RuleText = "obligation = one string-measuring construct in a sibling implementation / one optional-argument default; non-trivial = all"
 	r.Trusted = []string{"the set of sibling implementations is resolved from the registration tables by the Twig names length/count/first/last/slice/reverse"}
 
